@@ -20,23 +20,26 @@ RS = "canopen.sdo.client:ReadableStream"
 ABORT = "canopen.sdo.exceptions:SdoAbortedError"
 
 
-def mk_pair(w, value, set_abort=False, get_abort=False):
+def mk_pair(w, value, set_abort=False, get_abort=False, disturbing=False, leftovers=True):
     node = w.obj("env.sdonode:DataNode", value=value, get_abort=get_abort, get_code=0x06020000, set_abort=set_abort,
                  set_code=0x06010002, object_dictionary=None)
-    net = w.obj("env.pairnet:PairNet", client=None, server=None)
+    net = (w.obj("env.pairnet:DisturbingPairNet", client=None, server=None, budget=1, last_ccs=0) if disturbing
+           else w.obj("env.pairnet:PairNet", client=None, server=None))
     srv = w.run(Call(("new", SERVER), [0x601, 0x581, node]))
     w.setfield(srv, "network", net)
     # leftovers of any earlier transfers on both sides
-    w.setfield(srv, "_toggle", w.choose(w.int("old_toggle", 0, 0x10), (0, 0x10)))
-    w.setfield(srv, "_index", w.int("old_index", 0, 0xFFFF))
-    w.setfield(srv, "_subindex", w.int("old_sub", 0, 0xFF))
-    if w.bool("old_buffer"):
-        w.setfield(srv, "_buffer", w.lbytes("old_buf", 0, 1 << 20, mutable=True))
-    stale = w.plist("stale", maxn=2, elem=lambda i: w.bytes("stale%d" % i, 8))
+    if leftovers:
+        w.setfield(srv, "_toggle", w.choose(w.int("old_toggle", 0, 0x10), (0, 0x10)))
+        w.setfield(srv, "_index", w.int("old_index", 0, 0xFFFF))
+        w.setfield(srv, "_subindex", w.int("old_sub", 0, 0xFF))
+        if w.bool("old_buffer"):
+            w.setfield(srv, "_buffer", w.lbytes("old_buf", 0, 1 << 20, mutable=True))
+    stale = w.plist("stale", maxn=2, elem=lambda i: w.bytes("stale%d" % i, 8)) if leftovers else w.list([])
     cl = w.obj(CLIENT, rx_cobid=0x601, tx_cobid=0x581, network=net, od=None, responses=w.new_queue(stale),
                MAX_RETRIES=1, RESPONSE_TIMEOUT=0.3, PAUSE_BEFORE_SEND=0.0, RETRY_DELAY=0.1)
     w.setfield(net, "client", cl)
     w.setfield(net, "server", srv)
+    w.pre["net"] = net
     return cl, srv, node, net
 
 
@@ -60,7 +63,7 @@ def _told_payload(ev, p):
 def _pd_inv(interp, fr):
     w = interp.l03
     p = w.pre
-    ws, srv, cl, data = p["ws"], p["srv"], p["cl"], p["data"]
+    ws, srv, cl, data = fr.locals["stream"], p["srv"], p["cl"], p["data"]
     f, s = ws.fields, srv.fields
     pos = fr.locals["pos"]
     sets = _set_events(interp)
@@ -86,7 +89,7 @@ def _pd_inv(interp, fr):
 def _pd_havoc(interp, fr):
     w = interp.l03
     p = w.pre
-    ws, srv, data = p["ws"], p["srv"], p["data"]
+    ws, srv, data = fr.locals["stream"], p["srv"], p["data"]
     ctx = interp.ctx
     pos = ctx.fresh_int("h_pos", 0, (1 << 32) - 1)
     tog = ctx.fresh_int("h_toggle", 0, 0x10)
@@ -478,3 +481,116 @@ class StackRoundTripSmall(Contract):
         return Call(("func", "env.drivers", "download_then_upload"), [cl, index, sub, data, n if declared else None])
 
     ensures = {"read-back-exactly-what-was-written": lambda s: StackRoundTrip.ok(s)}
+
+
+# ------------------------------------------------------------------------------------------------ one disturbance (C07)
+COMM = "canopen.sdo.exceptions:SdoCommunicationError"
+
+
+def _d_queue_ok(cl, net):
+    """undisturbed so far: nothing pending; afterwards the queue may hold the duplicate (the next request flushes it)"""
+    return Or(compare("==", net.fields["budget"], 0), _queue_empty(cl))
+
+
+def _dd_inv(interp, fr):
+    c = _pd_inv(interp, fr)
+    w = interp.l03
+    c["no-response-pending"] = And(compare(">=", w.pre["net"].fields["budget"], 0), compare("<=", w.pre["net"].fields["budget"], 1),
+                                   _d_queue_ok(w.pre["cl"], w.pre["net"]))
+    return c
+
+
+def _d_havoc_bus(interp):
+    from pyvc.interp import PBase
+    from pyvc.libmodels import QueueModel
+    w = interp.l03
+    ctx = interp.ctx
+    net, cl = w.pre["net"], w.pre["cl"]
+    if bool(ctx.fresh_bool("h_disturbed_before")):
+        net.fields["budget"] = 0
+        cl.fields["responses"] = SObj(QueueModel, {"items": SList([], PBase("h_stale", ctx.fresh_int("h_stale.len", 0, 1 << 31)))})
+    else:
+        net.fields["budget"] = 1
+
+
+def _dd_havoc(interp, fr):
+    _pd_havoc(interp, fr)
+    _d_havoc_bus(interp)
+
+
+@contract
+class DisturbedPairDownload(PairDownloadTheorem):
+    """the real pair with ONE disturbance of a server response anywhere in the transfer (lost, abort frame, flipped
+    toggle, other command specifier, duplicated, other multiplexer): the download either raises an SDO communication /
+    abort error, or returns after the node was told exactly the payload exactly once; it never returns otherwise"""
+    id = "DisturbedPairDownload"
+    props = ("C07",)
+    cases = {"declared": (True, False), "undeclared": (False, False)}
+    loop_specs = {("download_in_chunks", 0): LoopSpec(_dd_inv, _dd_havoc,
+                                                      lambda interp, fr: binop("-", fr.locals["total"], fr.locals["pos"]))}
+    exits = ("return", "raise:SdoCommunicationError", "raise:SdoAbortedError")
+    budget_s = 900
+
+    def setup(self, w, case):
+        declared, refused = case
+        index, sub = w.int("index", 0, 0xFFFF), w.int("sub", 0, 0xFF)
+        data = w.lbytes("data", 5 if declared else 0, (1 << 32) - 1)
+        cl, srv, node, net = mk_pair(w, None, set_abort=refused, disturbing=True, leftovers=False)
+        size = (data.n if hasattr(data, "n") else len(data)) if declared else None
+        w.pre.update(cl=cl, srv=srv, data=data, index=index, sub=sub, declared=declared, refused=refused)
+        if not w.native:
+            w.interp.l03 = w
+        return Call(("func", "env.drivers", "open_and_download"), [cl, index, sub, size, data])
+
+    @staticmethod
+    def ok(s):
+        p = s.pre
+        if not s.returned:
+            return Or(s.raised(COMM), s.raised(ABORT))
+        sets = [e for e in s.ev if e[0] == "set_data"]
+        return len(sets) == 1 and _told_payload(sets[0], p)
+
+    ensures = {"fails-loudly-or-delivers-exactly-the-payload": lambda s: DisturbedPairDownload.ok(s)}
+
+
+def _du_inv(interp, fr):
+    c = _pu_inv(interp, fr)
+    w = interp.l03
+    c["no-response-pending"] = And(compare(">=", w.pre["net"].fields["budget"], 0), compare("<=", w.pre["net"].fields["budget"], 1),
+                                   _d_queue_ok(w.pre["cl"], w.pre["net"]))
+    return c
+
+
+def _du_havoc(interp, fr):
+    _pu_havoc(interp, fr)
+    _d_havoc_bus(interp)
+
+
+@contract
+class DisturbedPairUpload(PairUploadTheorem):
+    """the same for an upload: it raises an SDO communication / abort error or returns exactly the node's value"""
+    id = "DisturbedPairUpload"
+    props = ("C07",)
+    cases = {"segmented": "seg"}
+    loop_specs = {("upload_all", 0): LoopSpec(_du_inv, _du_havoc, _pu_variant)}
+    exits = ("return", "raise:SdoCommunicationError", "raise:SdoAbortedError")
+    budget_s = 900
+
+    def setup(self, w, case):
+        index, sub = w.int("index", 0, 0xFFFF), w.int("sub", 0, 0xFF)
+        value = w.lbytes("value", 5, (1 << 32) - 1)
+        cl, srv, node, net = mk_pair(w, value, disturbing=True, leftovers=False)
+        w.pre.update(cl=cl, srv=srv, value=value, index=index, sub=sub, case=case)
+        if not w.native:
+            w.interp.l03 = w
+        return Call(("func", "env.drivers", "open_and_upload_all"), [cl, index, sub])
+
+    @staticmethod
+    def ok(s):
+        p = s.pre
+        if not s.returned:
+            return Or(s.raised(COMM), s.raised(ABORT))
+        return _prefix_or_empty(s.ret, p["value"], p["value"].n) if isinstance(p["value"], LBytes) \
+            else (S.is_byteslike(s.ret) and S.same_bytes(s.ret, p["value"]))
+
+    ensures = {"fails-loudly-or-returns-exactly-the-value": lambda s: DisturbedPairUpload.ok(s)}
